@@ -74,7 +74,7 @@ QuickFams == <<
   \* reference keys, alt-text and empty keys
   Fam("ref",    1, {I(1), None, St("x")}, {None}, {I(1)}, {St("a")}, {I(1), I(2)}, {"updk", "updr", "add", "rem"}, 2, 2, OR, PR),
   \* two cells in one action, bulk updates, undo
-  Fam("multi",  2, K12, {None}, {I(1), I(2)}, {St("a")}, {I(0)}, {"upd2", "bupd", "undo"}, 2, 2, OM, PK),
+  Fam("multi",  1, K12, {None}, {I(1), I(2)}, {St("a")}, {I(0)}, {"upd2", "bupd", "undo", "add"}, 2, 2, OM, PK),
   \* schema-level edits: type change of the sort column, observers re-entered, ReplaceTableData, probe edits
   Fam("schema", 2, K12, {None}, {I(1), I(2)}, {St("a")}, {I(0)}, {"retype", "reobs", "repl", "probe", "upds1"}, 2, 2, OX, PK)
 >>
